@@ -455,6 +455,9 @@ class LocalConcurrences:
                                   0, len(self.series2) + 1, False)
         else:
             wp = self._wp
+            # Cells used by earlier matches are marked by negating them, make them available again
+            used = (wp.data < 0) & (wp.data != -np.inf)
+            wp.data[used] = -wp.data[used]
             if self.window is None:
                 wp.mask = False
             else:
